@@ -162,3 +162,5 @@ pub fn read_exact_vec(reader: &mut Source, buf: &mut Vec<u8>) -> (r: Result<(), 
             Err(e) => (old(reader).reliable() ==> old(reader)@.len() < old(buf)@.len()) },
         old(reader).reliable() && old(reader)@.len() >= old(buf)@.len() ==> r is Ok,
 { unimplemented!() }
+pub assume_specification[<i64>::unsigned_abs](x: i64) -> (r: u64)
+    ensures r as int == (if x >= 0 { x as int } else { -(x as int) });
